@@ -12,7 +12,7 @@ import numpy as np
 import pandas as pd
 
 from sim import seams, workload
-from sim.core import EndRun, close, np_seed
+from sim.core import EndRun, canon, close, np_seed
 from sim.models import hdm as H
 
 PROP = "C07"
@@ -60,6 +60,10 @@ def gen(rng, scenario, tier):
             ev.append(["ref", b, np_seed(rng)])
         elif c < 0.14:
             ev.append(["same", None, np_seed(rng)])
+        elif c < 0.2:
+            # the user corrects some interior values of the history collected so far and re-baselines on it: set_reference with
+            # as many rows as the accumulated reference has, the same per-feature range, other contents
+            ev.append(["refcorr", None, np_seed(rng)])
         else:
             ev.append(["u", b, np_seed(rng)])
     # one history in five arrives as DataFrames: with distinct column labels, or (several features) with a label used twice - as
@@ -121,6 +125,7 @@ def _run(case, ctx, rec):
     drifted_batch = None
     drifts = 0
     epoch_by = "set_reference"
+    handed_out = []     # (what, object, deep copy at the time): reports the user has been given must not change afterwards
 
     def wrap(arr):
         if not case.get("frames"):
@@ -133,6 +138,19 @@ def _run(case, ctx, rec):
     for i, (op, rows, seed) in enumerate(case["events"]):
         ctx.step = i
         det = ctx.maybe_fork(det)
+        if op == "refcorr":
+            if prev_drift:
+                spec.start_epoch(drifted_batch)
+                prev_drift = False
+            X = np.array(spec.ref, dtype=float).copy()
+            for j in range(X.shape[1]):
+                lo, hi = X[:, j].min(), X[:, j].max()
+                keep = {int(np.argmin(X[:, j])), int(np.argmax(X[:, j]))}
+                for r_ in range(1, len(X), 3):
+                    if r_ not in keep:
+                        X[r_, j] = lo + (hi - lo) * (((r_ * 7 + j * 3) % 11) + 1) / 13.0
+            rows, op = X.tolist(), "ref"
+            ctx.fault("set_reference_on_corrected_history")
         if op == "ref":
             X = np.array(rows, dtype=float)
             np.random.seed(seed)
@@ -162,6 +180,17 @@ def _run(case, ctx, rec):
         np.random.seed(seed)
         ctx.call("C07:update", det.update, wrap(X.copy()))
         ctx.sim_time += 1
+        for what, obj, then in handed_out:
+            if canon(obj) != canon(then):
+                _fail(ctx, "report_changed", "report_changed_later",
+                      f"call {i}: the {what} object the user read after an earlier call now holds {str(obj)[:160]}; when it was read it held {str(then)[:160]}", cfg)
+        import copy as _copy
+
+        for what in ("feature_info",):
+            obj = getattr(det, what, None)
+            if obj is not None and not any(o is obj for _, o, _ in handed_out):
+                handed_out.append((what, obj, _copy.deepcopy(obj)))
+        del handed_out[:-6]
         uses_boot = (spec.j + 1 == 2 and db != 3)
         eps0 = float(det.epsilon[0]) if uses_boot and len(det.epsilon) >= 1 else None
         try:
@@ -273,5 +302,5 @@ def fix(case):
 
 def summarize(case):
     ev = case["events"]
-    return {"cfg": case["cfg"], "ops": "".join({"ref": "S", "u": "u", "same": "="}[e[0]] for e in ev),
+    return {"cfg": case["cfg"], "ops": "".join({"ref": "S", "u": "u", "same": "=", "refcorr": "C"}[e[0]] for e in ev),
             "batch_sizes": [len(e[1]) if e[1] else None for e in ev], "features": len(ev[0][1][0])}
